@@ -10,7 +10,7 @@
     templates and environments by the C01 check.  Attribute names are covered for plain characters (F06).
     OBLIGATIONS: C01_static_tree_reads_as_its_html C01_static_body_reads_as_its_html C01_static_template_code
                  C01_static_template_literal_value C01_static_document_survives_whitespace_pass
-                 C01_template_with_interpolation_code C01_segments_of_static_tree C01_nonvacuous C01_nonvacuous_dynamic C01_nonvacuous_helpers *)
+                 C01_template_with_interpolation_code C01_segments_of_static_tree C01_nonvacuous C01_nonvacuous_dynamic C01_nonvacuous_helpers C01_nonvacuous_filters *)
 From GV Require Import Compiler.Compile Base.Regex Proofs.Utf8Proofs Proofs.QuoteProofs Proofs.EmitProofs Proofs.StaticProofs Proofs.StaticNukeProofs Proofs.DynamicProofs Proofs.SegProofs.
 From Coq Require Import Lia.
 Open Scope N_scope.
@@ -62,7 +62,8 @@ Proof. exact nuke_static_document. Qed.
 Print Assumptions C01_static_document_survives_whitespace_pass.
 
 (** templates with interpolation, `=` scripts, unescaped `!=` / `!` lines, dynamic and conditional attributes, object
-    references `[obj]` (goht.ObjectID / BuildClassList) and `@attributes` (goht.BuildAttributeList), and
+    references `[obj]` (goht.ObjectID / BuildClassList), `@attributes` (goht.BuildAttributeList), the whitespace marks
+    `>` `<`, comment blocks, the :javascript / :css / :plain / :escaped filters, and
     `-` lines (Go statements, blocks written without braces: if / else if / else chains, for, switch with its case lines):
     the generated body is a run of literal chunks, dynamic blocks and Go statements `stmt { ... }`, [denotes],
     standing for the segments [segs_list body]: literal HTML ([SLit]), for each `= expr` / `#{expr}` the
@@ -213,3 +214,35 @@ Proof.
   all: intros o0 Ho; injection Ho as <-; reflexivity.
 Qed.
 Print Assumptions C01_nonvacuous_helpers.
+
+(** filters, a comment block and whitespace marks *)
+Definition ex4_src : bytes :=
+  lit "@goht T(a string) {" ++ [10; 9] ++ lit ":javascript" ++ [10; 9; 9] ++ lit "var x = ""#{a}"";" ++ [10; 9] ++
+  lit ":plain" ++ [10; 9; 9] ++ lit "<b>#{a}</b>" ++ [10; 9] ++ lit "/" ++ [10; 9; 9] ++ lit "%p>< in" ++ [10] ++ lit "}" ++ [10].
+Definition ex4_items : list node :=
+  Eval vm_compute in match compile_parse ex4_src with ODone (Node _ items) None => items | _ => [] end.
+
+Example C01_nonvacuous_filters :
+  match ex4_items with
+  | Node (KGoht o) body :: _ =>
+      Forall dyn_node body /\ kids_ok body /\
+      eval_segs (fun e => lit "<" ++ e ++ lit ">") (segs_list false body) =
+        lit "<script>" ++ [10] ++ lit "var x = ""&lt;a&gt;"";" ++ [10] ++ lit "</script>" ++
+        lit "<b><a></b>" ++ [10] ++
+        lit "<!--" ++ [10] ++ c_NukeBefore ++ lit "<p>" ++ c_NukeAfter ++ lit "in" ++ c_NukeBefore ++ lit "</p>" ++ c_NukeAfter ++ lit "-->" ++ [10]
+  | _ => False
+  end.
+Proof.
+  cbv [ex4_items]. split; [|split; [vm_compute; repeat split; try reflexivity; intros; try assumption; discriminate|vm_compute; reflexivity]].
+  Ltac dn2 :=
+    first [ dn1
+          | match goal with
+            | |- (_ <> [] /\ _) \/ _ => first [left; split; [discriminate|] | right]
+            | |- (_ = _ /\ _) \/ _ => first [left; split; [reflexivity|] | right; split; [reflexivity|]]
+            | |- _ = [] /\ _ => split; [reflexivity|]
+            | |- false = true \/ _ => right
+            | |- true = true \/ _ => left; reflexivity
+            end ].
+  repeat dn2. all: try lia; try discriminate; try reflexivity.
+Qed.
+Print Assumptions C01_nonvacuous_filters.
